@@ -7,6 +7,7 @@ import Driver.C29
 import Driver.Pool
 import Driver.C25
 import Driver.C31
+import Driver.C37
 open Mitum Mitum.Driver
 
 def step (line : String) : String :=
@@ -22,6 +23,7 @@ def step (line : String) : String :=
   | "C29" :: ts => stepC29 ts
   | "C31" :: ts => stepC31 ts
   | "C35" :: ts => stepC35 ts
+  | "C37" :: ts => stepC37 ts
   | "C38" :: ts => stepC38 ts
   | _ => "bad-op"
 
